@@ -95,6 +95,16 @@ type oneShot struct {
 func (o *oneShot) Read(p []byte) (int, error)  { return o.in.Read(p) }
 func (o *oneShot) Write(p []byte) (int, error) { return o.out.Write(p) }
 
+// EchoReply is the answer to a request the protocol server does not know: a marker octet and the request, cut so that
+// the answer is itself a frame the protocol can carry (16 MiB).
+func EchoReply(req []byte) []byte {
+	const maxFrame = 16 << 20
+	if len(req) >= maxFrame {
+		req = req[:maxFrame-1]
+	}
+	return append([]byte{0xEE}, req...)
+}
+
 // Process returns the honest reply body for one request body.
 func Process(a agent.Agent, req []byte) []byte {
 	if len(req) == 0 {
@@ -102,7 +112,7 @@ func Process(a agent.Agent, req []byte) []byte {
 	}
 	if KindOf(req[0]) == "raw" {
 		// Unknown to the protocol server: echo, so that relays can be checked.
-		return append([]byte{0xEE}, req...)
+		return EchoReply(req)
 	}
 	frame := make([]byte, 4+len(req))
 	binary.BigEndian.PutUint32(frame, uint32(len(req)))
